@@ -21,6 +21,52 @@ CLAIMS = {
        "(no formal float semantics); it is sampled by the C03 value lattice and the 50-digit law sweep.",
   note=TB + "the float64 half of the property is exploration only.",
   technique="Lean 4 proofs (Spec refinement) over translator-generated model; mp reference model as failing-input search"),
+ "C03": dict(category="proof", design="4/C03",
+  text="Naturality theorems about the glue model: for every map f on scalars and compute layers related by f (NumPy's element-wise contract, PROVED for the generated "
+       "executable layer at column types for all 82 modules), wrapVec/wrapResult/dispatch/getAcc/scaleN/binary/toDim/toSystem/setC/step commute with f; hence element i of an "
+       "array result is the object result on element i, scalars and single objects broadcast as constant columns, errors coincide, shape preserved by construction. "
+       "Tie to the code: value lattice at float64 (NumPy, Awkward flat/jagged/option, records; mixed pairings) compared element-wise with the object backend, 1e-12 relative, NaN pattern exact.",
+  note=GL + "NumPy/Awkward element semantics of ufuncs are trusted; tolerance 1e-12 relative.",
+  technique="Lean 4 naturality proofs about a hand-written executable model + differential value lattice across backends"),
+ "C11": dict(category="proof", design="4/C11",
+  text="112 Lean theorems: commutativity/associativity of add, subtract inverts add, scale distributes and composes, negation = scale -1, dot symmetric/bilinear (Euclidean 2D/3D, Minkowski 4D), "
+       "v.v = rho2/mag2/tau2, cross antisymmetric/bilinear/orthogonal, Lagrange identity, unit has norm one and is parallel - for ALL coordinate-system combinations at once, as corollaries of "
+       "the refinement theorems over the regenerated model. abs/**/@ routing: glue model + symbolic correspondence (C05).",
+  note=TB + "tau-stored vectors scaled by a negative factor are outside the representable domain (partial theorems say so).",
+  technique="Lean 4 proofs (corollaries of Spec refinement) over translator-generated model; mp law sweep"),
+ "C16": dict(category="other", design="4/C16",
+  text="A pure functional model cannot express aliasing: the Lean theorems (operations are functions of their operands; only `step` has a state output; frame lemmas for step) are "
+       "nearly trivial and said to be so. The substance is observational: every operand (object coordinates/class, NumPy raw bytes/dtype/shape/flags, Awkward to_buffers/form/fields) is snapshotted "
+       "bit-for-bit before and after each call of the catalogue on every backend pairing, including calls that raise, reductions and operators.",
+  note="Trusted: the snapshot functions and the call catalogue of harness/arrays.py; CPython/NumPy/Awkward.",
+  technique="trivial Lean frame theorems + exhaustive before/after snapshot observation of operands"),
+ "C17": dict(category="proof", design="4/C17",
+  text="Model of _reduce_sum / _reduce_count_nonzero (column sums of the x,y,z,t accessors; rho2!=0|z!=0|t2!=0) over the regenerated real model; by induction over the list, for every stored "
+       "system: denote(sum vs) = fold of add over the denotations, sum [] = 0, sum of concatenation = sum of sums (axis-wise), permutation invariance, count_nonzero = number of elements whose "
+       "denotation is non-zero, flavor kept. Tie: NumPy 1-D/2-D all axes/keepdims and Awkward jagged (empty lists) reductions compared with exact fsum of the elements' Cartesian components.",
+  note=TB + "floating-point summation order is not modelled (comparison tolerance 1e-12 relative).",
+  technique="Lean 4 proofs by list induction over translator-generated accessors + numeric correspondence of reducers"),
+ "C18": dict(category="proof", design="4/C18",
+  text="Layout trees (lists, options, nesting) with map/zipWith: shape, missing positions and nesting are preserved by unary and binary operations (structural induction), selection commutes with map; "
+       "field rule: unary results = result coordinates followed by the operand's non-coordinate fields in order, binary results have coordinates only; the REAL seven-branch exclusion lists are transcribed "
+       "and proved equal to the documented rule on well-formed (generic-named) records, with machine-checked deviations for raw momentum-named records (known finding). Tie: layouts flat/jagged/nested-3/"
+       "option(list|record)/regular/empty with extra fields on the real Awkward backend.",
+  note=GL + "Awkward internals (ak.zip/ak.transform) trusted.",
+  technique="Lean 4 structural-induction proofs about a hand-written model + differential structure/field comparison on real layouts"),
+ "C19": dict(category="proof", design="4/C19",
+  text="NumPy vector array = glue vector at a column type: integer index keeps type/system/flavor and returns exactly the element's coordinates; slices, masks, reshapes, views are reindexings that keep "
+       "the type and commute with indexing; pickle/copy = identity reindexing; name index returns the stored column at every position (under the identity-accessor laws, proved for the generated layer); "
+       "asArray of a single vector. Tie: shapes up to 3-D, 20 systems x 2 flavors, index expressions, name/synonym index, slice assignment, pickle/deepcopy/copy, asanyarray/asarray on the real backend.",
+  note=GL + "NumPy view mechanics trusted.",
+  technique="Lean 4 proofs about a hand-written array model + differential indexing harness"),
+ "C20": dict(category="proof", design="4/C20",
+  text="Global-state model (per-thread NumPy errstate, warnings filters, print options, Awkward/Numba registration flags): every operation is a bracket that restores the errstate whether the body "
+       "returns or raises; by induction any sequence of operations on any threads leaves the state unchanged; register_* idempotent and touching only their flag; fine-grained interleavings: each "
+       "thread's results equal its sequential results, adjacent steps of different threads commute. Tie: snapshots of numpy.geterr/warnings.filters/printoptions/ak.behavior/registration flag around "
+       "every catalogued call (returning, raising, singular) under three prior settings; caller-owned behavior mapping; 16 threads vs sequential, bit-for-bit.",
+  note="Trusted: the model's assumption that operation bodies read only operands and thread-local errstate (checked observationally); CPython/NumPy thread-local implementation and real scheduling are not modelled.",
+  technique="Lean 4 proofs by induction over call sequences and schedules + global-state snapshot / multi-thread observation"),
+
  "C04": dict(category="proof", design="4/C04",
   text="Theorems about the glue model for all scalar types and compute layers: projections keep the retained stored coordinates verbatim (prefix), embeddings keep all "
        "stored coordinates and add exactly the keyword's value in the keyword's coordinate type or zero, to_<own system> is the identity (under the identity-accessor "
